@@ -17,13 +17,30 @@ import (
 
 func main() { drv.Main(&queueDrv{backend: "mem"}) }
 
-type recNotifier struct{ evs []string }
+type recNotifier struct {
+	evs    []string
+	locked func() bool // the queue's lock is held right now (verif hook); nil until the queue exists
+}
+
+// atomic: a notifier callback must run while the queue's lock is held — the report is part of the step it reports
+func (n *recNotifier) atomic() {
+	if n.locked != nil && !n.locked() {
+		n.evs = append(n.evs, "UNLOCKED")
+	}
+}
 
 func (n *recNotifier) NotifyDropped(e *queue.Elem, err error) {
+	n.atomic()
 	n.evs = append(n.evs, "drop="+showElem(e)+":"+reasonOf(err))
 }
-func (n *recNotifier) NotifyInflightAdded(d int) { n.evs = append(n.evs, "i="+strconv.Itoa(d)) }
-func (n *recNotifier) NotifyMsgQueueAdded(d int) { n.evs = append(n.evs, "q="+strconv.Itoa(d)) }
+func (n *recNotifier) NotifyInflightAdded(d int) {
+	n.atomic()
+	n.evs = append(n.evs, "i="+strconv.Itoa(d))
+}
+func (n *recNotifier) NotifyMsgQueueAdded(d int) {
+	n.atomic()
+	n.evs = append(n.evs, "q="+strconv.Itoa(d))
+}
 func (n *recNotifier) take() string {
 	s := strings.Join(n.evs, " ")
 	n.evs = n.evs[:0]
@@ -154,6 +171,7 @@ func (d *queueDrv) Step(line string) string {
 			return "err"
 		}
 		d.q = q
+		d.n.locked = q.VerifLocked
 		return "ok"
 	case "init":
 		err := d.q.Init(&queue.InitOptions{CleanStart: f[1] == "1", Version: packets.Version5,
